@@ -50,3 +50,29 @@ Theorem C09_values_accepted : forall (E : list (N * rvariants)) (v : lit) (T : r
   wf E T = true -> has_type v T = true -> is_of_type v T = true /\ denote v = Some v.
 Proof. exact values_accepted_top. Qed.
 Print Assumptions C09_values_accepted.
+
+(* ------------------------------------------------------------------ the two encodings of the
+   development are ONE (Lang/LitEnc.v): the model of the real Literal API (this file's theorems;
+   tied to literal.rs on every run) and the encoding the program theorems speak about
+   (Sem.encode / Compile/ValEnc.has_enc, on which "bit-level semantics = Sem.v" and through it
+   the circuit theorems rest).  For a value v of a type t of a program: its canonical literal
+   passes the real type test and the real encoder produces exactly has_enc's bits; the real
+   decoder returns that literal.  And at the program level, for the full fragment: from argument
+   LITERALS through the real encoder, the bit-level semantics, and the real decoder, one obtains
+   the literal of the value Sem.v computes (lit_program_agree). *)
+From GV Require Import Lang.Ast Lang.ValTy Compile.ValEnc Lang.LitEnc.
+
+Theorem C09_real_encoder_is_the_semantic_encoding :
+  forall P t v w rt, enums_small P = true ->
+  has_enc P t v w -> ty_of_ast P t = Some rt ->
+  exists l, lit_of_value P v t = Some l /\ has_type l rt = true /\ is_of_type l rt = true /\
+            as_bits (enum_env P) l = Ok w.
+Proof. exact lit_enc_agree. Qed.
+Print Assumptions C09_real_encoder_is_the_semantic_encoding.
+
+Theorem C09_real_decoder_inverts_the_semantic_encoding :
+  forall P t v w rt l, enums_small P = true -> structs_sorted P = true ->
+  has_enc P t v w -> ty_of_ast P t = Some rt -> lit_of_value P v t = Some l ->
+  from_bits rt w = Ok (Some l) /\ lenN w = size rt.
+Proof. exact lit_enc_decode. Qed.
+Print Assumptions C09_real_decoder_inverts_the_semantic_encoding.
